@@ -105,14 +105,14 @@ Proof.
   split; [subst st'; apply sorted_batch_put; exact Hs|]. split; [exact E|exact G].
 Qed.
 
-Lemma c11_batch_put_partial : forall st sched kvs st' ok,
+Lemma c11_batch_put_partial_failure : forall st sched kvs st' ok,
   sorted st -> batch_put st sched kvs = Some (st', ok) ->
   sorted st' /\
   forall k, st_get st' k = st_get st k \/
             (In k (map fst kvs) /\ exists e, find_last kvs k = Some e /\ st_get st' k = Some e).
 Proof.
   intros st sched kvs st' ok Hs H. split; [eapply bput_rounds_sorted; eassumption|].
-  intros k. exact (bput_rounds_partial _ _ _ _ _ _ H k).
+  intros k. exact (bput_rounds_partial_failure _ _ _ _ _ _ H k).
 Qed.
 
 Lemma c11_batch_delete : forall st sched keys st',
@@ -124,12 +124,12 @@ Proof.
   split; [subst st'; apply sorted_batch_delete; exact Hs|]. split; [exact E|exact G].
 Qed.
 
-Lemma c11_batch_delete_partial : forall st sched keys st' ok,
+Lemma c11_batch_delete_partial_failure : forall st sched keys st' ok,
   sorted st -> bdel_rounds st sched keys = Some (st', ok) ->
   sorted st' /\ forall k, st_get st' k = st_get st k \/ (In k keys /\ st_get st' k = None).
 Proof.
   intros st sched keys st' ok Hs H. split; [eapply bdel_rounds_sorted; eassumption|].
-  intros k. exact (bdel_rounds_partial _ _ _ _ _ H k).
+  intros k. exact (bdel_rounds_partial_failure _ _ _ _ _ H k).
 Qed.
 
 Lemma c11_batch_boundaries_independent :
